@@ -13,6 +13,12 @@ def prelude(p):
     p.fn("tickb", [("i", INT32), ("v", BOOL)], BOOL, Block([println(Bin("+", Str("t"), show_int(Var("i"))))], Var("v")))
     p.fn("ticks", [("i", INT32), ("v", STRING)], STRING, Block([println(Bin("+", Str("t"), show_int(Var("i"))))], Var("v")))
     p.fn("zero", [], INT32, Int(0))
+    p.fn("inc1", [("x", INT32)], INT32, Bin("+", Var("x"), Int(1)))
+    p.fn("dbl1", [("x", INT32)], INT32, Bin("*", Var("x"), Int(2)))
+    p.fn("pick", [("i", INT32), ("b", BOOL)], TFn([INT32], INT32), Block([println(Bin("+", Str("pick"), show_int(Var("i"))))], If(Var("b"), FnRef("inc1"), FnRef("dbl1"))))
+    # user functions whose names look like runtime helpers / Go builtins, with an effect
+    p.fn("audit_to_string", [("x", INT32)], STRING, Block([println(Bin("+", Str("audit"), show_int(Var("x"))))], Str("a")))
+    p.fn("my_len", [("x", INT32)], INT32, Block([println(Str("my_len"))], Var("x")))
     p.fn("add3", [("a", INT32), ("b", INT32), ("c", INT32)], INT32, Bin("+", Bin("+", Var("a"), Var("b")), Var("c")))
     p.struct("S3", [("a", INT32), ("b", INT32), ("c", INT32)])
     p.enum("E2", [("K0", []), ("K2", [INT32, INT32])])
@@ -77,6 +83,14 @@ def programs(tier):
     add("unused-let-in-while", mk(f"c09_ulw_{len(out)}", [Let("i", Call("ref", Int(0))),
         Do(While(Bin("<", Call("ref_get", Var("i")), Int(2)), Block([Let("u", tick(1, Call("ref_get", Var("i")))), Do(Call("ref_set", Var("i"), Bin("+", Call("ref_get", Var("i")), Int(1))))], Unit))), println(Str("end"))]))
     add("unused-closure-call", mk(f"c09_ucc_{len(out)}", [Let("f", Lam([("x", INT32)], tick(1, Var("x")))), Do(CallV(Var("f"), Int(3))), Let("u", CallV(Var("f"), Int(4))), println(Str("end"))]))
+    # callee given by a compound expression with an effect: callee first, then arguments
+    add("callee:call-result", mk(f"c09_callee_{len(out)}", [], CallV(Call("pick", Int(1), Bool(True)), tick(2, Int(5)))))
+    add("callee:call-result-2", mk(f"c09_callee_{len(out)}", [], CallV(Call("pick", tick(1, Int(1)), Bool(False)), Bin("+", tick(2, Int(5)), tick(3, Int(1))))))
+    add("callee:array-element", mk(f"c09_callee_{len(out)}", [Let("fs", Array(FnRef("inc1"), FnRef("dbl1")))], CallV(Call("array_get", Var("fs"), tick(1, Int(1))), tick(2, Int(5)))))
+    add("callee:if-result", mk(f"c09_callee_{len(out)}", [Let("g", If(tickb(1, Bool(True)), FnRef("inc1"), FnRef("dbl1")))], CallV(Var("g"), tick(2, Int(5)))))
+    # discarded calls of user functions whose names resemble runtime helpers
+    add("discard:helper-like-name", mk(f"c09_hln_{len(out)}", [Do(Call("audit_to_string", Int(1))), Stmt(Call("audit_to_string", Int(2))), Let("u", Call("audit_to_string", Int(3))),
+                                                              Do(Call("my_len", Int(4))), println(Str("end"))]))
     add("bin:str+", mk(f"c09_strcat_{len(out)}", [println(Bin("+", ticks(1, Str("a")), ticks(2, Str("b"))))]))
     # short-circuit: all four truth combinations for && and ||
     for op in ["&&", "||"]:
